@@ -87,12 +87,22 @@ def py_write_history(model, proto, pyvals, rng, fmt):
             for g in groups:
                 chunk = items[k:k + g]
                 k += g
-                how = rng.choice(["list", "gen", "tuple"])
-                desc.append("%s:%s%d" % (name, how[0], g))
+                # the API takes any Iterable[T]: sized ones (list, tuple, deque, dict views) and one-shot ones (generator, iterator, map)
+                how = rng.choice(["list", "gen", "tuple", "list", "gen", "tuple", "deque", "dictvalues", "iter", "map"])
+                desc.append("%s:%s%d" % (name, how[:2] if how in ("deque", "dictvalues", "iter", "map") else how[0], g))
                 if how == "list":
                     meths[i](list(chunk))
                 elif how == "gen":
                     meths[i]((x for x in chunk))
+                elif how == "deque":
+                    import collections
+                    meths[i](collections.deque(chunk))
+                elif how == "dictvalues":
+                    meths[i](dict(enumerate(chunk)).values())
+                elif how == "iter":
+                    meths[i](iter(list(chunk)))
+                elif how == "map":
+                    meths[i](map(lambda x: x, chunk))
                 else:
                     meths[i](tuple(chunk))
         w.close()
@@ -151,8 +161,9 @@ def py_side(model, proto, rng, quick, stats, viols, ctx):
             stats["py_write_histories"] = stats.get("py_write_histories", 0) + 1
             out, err, desc = py_write_history(model, proto, pyvals, hr, fmt)
             for tok in desc.split():
-                kind = tok.split(":")[1][0]
-                key = {"l": "list_path", "g": "generator_path", "t": "tuple_path"}[kind]
+                kind = tok.split(":")[1].rstrip("0123456789")
+                key = {"l": "list_path", "g": "generator_path", "t": "tuple_path", "de": "sized_iterable_path(deque, dict view)", "di": "sized_iterable_path(deque, dict view)",
+                       "it": "one_shot_iterator_path(iter, map)", "ma": "one_shot_iterator_path(iter, map)"}[kind]
                 stats[key] = stats.get(key, 0) + 1
                 if tok.endswith("0"):
                     stats["empty_write_call"] = stats.get("empty_write_call", 0) + 1
@@ -468,7 +479,7 @@ def main():
                stubbed="C++: nd-array header (cpp.overrideArrayHeader) and date/date.h are verification stubs; harness main emitted from the generated protocols.h",
                assumptions=["reference codec per docs/reference, with int8/uint8 as one raw byte"],
                replay_fn=replay_doc, quick_budget=150,
-               fault_keys=("value_straddles_refill", "empty_write_call", "generator_path", "list_path", "tuple_path", "block_end_on_buffer_boundary", "cpp_relay", "cpp_script", "cpp_ndjson_relay", "cpp_ndjson_script", "py_write_histories"))
+               fault_keys=("value_straddles_refill", "empty_write_call", "generator_path", "list_path", "tuple_path", "sized_iterable_path(deque, dict view)", "one_shot_iterator_path(iter, map)", "block_end_on_buffer_boundary", "cpp_relay", "cpp_script", "cpp_ndjson_relay", "cpp_ndjson_script", "py_write_histories"))
 
 
 if __name__ == "__main__":
